@@ -1,6 +1,7 @@
 package harness
 
 import (
+	"runtime/debug"
 	"bytes"
 	"context"
 	"crypto/sha256"
@@ -57,10 +58,22 @@ func (w *World) closeHook(url string) {
 	}
 }
 
+// onPanic must be called from the deferred function that recovered r.
 func (w *World) onPanic(n *Node, where string, r any) {
 	msg := fmt.Sprint(r)
-	w.Panics = append(w.Panics, PanicRec{Node: n.Idx, Where: where, Msg: msg, Tag: w.curTag})
-	simrt.Logf("panic", "%s: %s", where, msg)
+	at := simrt.PanicOrigin()
+	if at == "" {
+		at = where
+	}
+	w.Panics = append(w.Panics, PanicRec{Node: n.Idx, Where: at, Msg: msg, Tag: w.curTag})
+	if len(w.Notes) < 40 {
+		st := string(debug.Stack())
+		if len(st) > 1800 {
+			st = st[:1800]
+		}
+		w.note("panic in %s at %s: %s\n%s", where, at, msg, st)
+	}
+	simrt.Logf("panic", "%s: %s", at, msg)
 }
 
 // PanicRec is a recovered handler panic (a real node would have crashed).
